@@ -62,6 +62,11 @@ class WSSession:
         await self._flush()
         self.client.pump()
         await self._flush()
+        # RFC 8441: a client may use :protocol only towards a server that has announced
+        # SETTINGS_ENABLE_CONNECT_PROTOCOL = 1 (recorded; C10/C11 judge it)
+        import h2.settings as _h2s
+        self.connect_protocol_announced = \
+            self.client.h2.remote_settings.get(_h2s.SettingCodes.ENABLE_CONNECT_PROTOCOL, 0) == 1
         headers = [(b":method", hs.get("method", "CONNECT").encode()),
                    (b":scheme", b"https" if self.tls else b"http"),
                    (b":authority", hs.get("host", "example.com").encode()),
